@@ -90,6 +90,8 @@ class Gen:
             x = r.choice([0.0, -0.0, 1.0, 0.5, -1.0])
         elif k < 0.16:
             x = r.uniform(-1, 1) * 10.0 ** (-r.randint(1, 9))
+        elif k < 0.19:
+            x = r.uniform(-1, 1) * 10.0 ** r.randint(3, 15)
         else:
             x = r.uniform(lo, hi)
         return self.rep(x) if self.mode == "representable" else x
@@ -322,7 +324,9 @@ def dump(e, d, tb):
 
     def term(t):
         c, ps, height, extra = term_fields(t, tb)
-        return ("term", t.name, c, tuple(fnum(p, d) for p in ps), h(height), extra)
+        # the height attribute of Constant / Linear / Function is not used by their membership functions: not structure
+        # (what the exporter does with it is observed through the parameter list and the import result)
+        return ("term", t.name, c, tuple(fnum(p, d) for p in ps), "-" if c in ("Constant", "Linear", "Function") else h(height), extra)
 
     def dz(z):
         if z is None:
@@ -674,7 +678,8 @@ def variants(rng, text: str, d: int):
         out.append(("reject", "blank-before-colon-of-term-or-rule", "\n".join(v), True))
         i = rng.choice(cands)
         v = list(lines)
-        if v[i].lstrip().startswith("term:"):
+        # (a Function formula is left alone: whether a mutilated formula loads is C17's subject, not modelled here)
+        if v[i].lstrip().startswith("term:") and " Function " not in v[i]:
             parts = v[i].split(" ")
             # "  term: name Class params": drop the last parameter or rename the class
             if rng.random() < 0.5 and len(parts) > 5:
@@ -704,9 +709,22 @@ def variants(rng, text: str, d: int):
             if k < 0.4:
                 v[i] = v[i].partition(":")[0] + ": " + rng.choice(["Minimun", "Maximum Minimum", "Centroid x", "Centroid 1.5", "WeightedSum Sugeno", "First 1", "First a 0.5", "Highest 1 2", "Threshold ~ 0.5", "General extra words", "Threshold > 0.5 1"])
                 out.append(("any", "operator-garbage", "\n".join(v), True))
-            else:
+            elif k < 0.7:
                 v[i] = v[i].partition(":")[0] + ":"
                 out.append(("accept", "operator-empty-value", "\n".join(v), True))
+            else:
+                key = v[i].partition(":")[0]
+                pool = {"activation": ["First", "Last", "Highest", "Lowest", "Threshold", "General", "Proportional", "none"],
+                        "defuzzifier": ["Centroid", "Bisector", "WeightedAverage", "WeightedSum", "MeanOfMaximum", "none"]}.get(key.strip())
+                if pool:
+                    v[i] = key + ": " + rng.choice(pool)
+                    out.append(("any", "operator-bare-class", "\n".join(v), True))
+    tl = [i for i, l in enumerate(lines) if l.lstrip().startswith("term:") and " Function" not in l]
+    if tl:
+        i = rng.choice(tl)
+        v = list(lines)
+        v[i] = " ".join(v[i].split(" ")[:5])      # "  term: name Class": constructor defaults
+        out.append(("any", "term-without-parameters", "\n".join(v), True))
     return out
 
 
@@ -747,9 +765,16 @@ def check_engine(fl, rng, verdict, tb, e, d, meta, stats, cases, index):
         fvars = any(type(t).__name__ == "Function" and t.variables for v in e.output_variables for t in v.terms)
         expected_lit, e2, exc = import_expectation(fl, t1, d, tb)
         stats["evaluations"] += 1
-        if e2 is None:
-            sig = f"fll:height-of-{heightless[0]}-not-reimportable" if heightless else f"fll:import-raises-{exc}"
-            violation(sig, f"the exported text of the engine is rejected by the importer with {exc} (decimals={d}, {meta})")
+        # A non-unit `height` attribute on Constant / Linear / Function is an attribute hack: their constructors offer no
+        # height, so such engines are not "buildable from the registered types".  They are kept as correspondence-only
+        # probes (the model mirrors what the printer does with the attribute) and never reach the violation oracle.
+        probe = bool(heightless)
+        if probe:
+            stats["correspondence_only_probes"] = stats.get("correspondence_only_probes", 0) + 1
+            key = f"{heightless[0]}:" + ("import-raises-" + exc if e2 is None else "imported")
+            stats.setdefault("probe_outcomes", {})[key] = stats.setdefault("probe_outcomes", {}).get(key, 0) + 1
+        elif e2 is None:
+            violation(f"fll:import-raises-{exc}", f"the exported text of the engine is rejected by the importer with {exc} (decimals={d}, {meta})")
         else:
             t2 = exp.to_string(e2)
             if t1 != t2:
@@ -761,8 +786,6 @@ def check_engine(fl, rng, verdict, tb, e, d, meta, stats, cases, index):
             for p in paths:
                 if re.search(r"/rule\.1$", p):
                     sig = "fll:rule-enabled-lost"
-                elif heightless and re.search(r"/term\.(3|4)", p):
-                    sig = f"fll:height-of-{heightless[0]}-changes-the-term"
                 elif re.search(r"/term\.5", p):
                     sig = "fll:function-variables-lost"
                 elif rounds_into_tolerance(e, d, tb) and re.search(r"/(term|rule)\.4$", p):
@@ -791,7 +814,7 @@ def check_engine(fl, rng, verdict, tb, e, d, meta, stats, cases, index):
         if ascii_ok(t1):
             cases.append(case_literal(fl, d, tb, e, t1, expected_lit, e2))
             index.append({"what": "export", "decimals": d, "meta": meta, "fll": t1})
-        if e2 is not None and rng.random() < meta.get("variant_rate", 0.5):
+        if e2 is not None and not probe and rng.random() < meta.get("variant_rate", 0.5):
             for kind, label, text, model_ok in variants(rng, t1, d):
                 lit, ev, exc = import_expectation(fl, text, d, tb)
                 stats["variants"][label] = stats["variants"].get(label, 0) + 1
@@ -874,7 +897,7 @@ def run(ctx, build, verdict, ev):
     samples = []
     for i in range(n):
         e, d, mode, flags, rng = engine_for(fl, seeds[i], i, tb)
-        meta = {"i": i, "n": n, "mode": mode, "flags": sorted(flags), "variant_rate": 0.5}
+        meta = {"i": i, "n": n, "seed": ctx.seed, "mode": mode, "flags": sorted(flags), "variant_rate": 0.5}
         stats["modes"][mode + ("+" + "+".join(sorted(flags)) if flags else "")] = stats["modes"].get(mode + ("+" + "+".join(sorted(flags)) if flags else ""), 0) + 1
         stats["decimals"][d] = stats["decimals"].get(d, 0) + 1
         for v in list(e.input_variables) + list(e.output_variables):
@@ -895,7 +918,7 @@ def run(ctx, build, verdict, ev):
     # the model inside Coq
     mism = []
     if not build.translation_errors:
-        bad, log = vlib.run_coq_cases(ctx.work, "c14", "From VF Require Import GenNorm GenTerm Core Fll.\nOpen Scope string_scope.", [(CASE_TYPE, CHECKER, cases)], chunk=ctx.n(60, 150))
+        bad, log = vlib.run_coq_cases(ctx.work, "c14", "From VF Require Import GenNorm GenTerm Core Fll.\nOpen Scope string_scope.", [(CASE_TYPE, CHECKER, cases)], chunk=max(40, min(150, -(-len(cases) // vlib.NPROC))))
         for j in bad:
             if j < 0:
                 verdict.add_broken("correspondence", "C14:coq-evaluation", log)
@@ -909,13 +932,17 @@ def run(ctx, build, verdict, ev):
     c["evaluations"] = stats["evaluations"] + len(cases)
     c["distinct_nontrivial"] = len(texts)
     c["rule"] = ("engines drawn from the seed with round-robin coverage of every registered term / norm / defuzzifier / activation class; decimals cycle 1..9; "
-                 "modes representable / free (+unstable heights, +disabled rule, +height on Constant/Linear/Function, +Function variables); each engine exported, imported, re-exported, "
+                 "modes representable / free (+unstable heights, +disabled rule, +Function variables; +height attribute on Constant/Linear/Function as correspondence-only probes); each engine exported, imported, re-exported, "
                  "dumped, and (representable) processed on 8 input rows on both sides; half of the engines also through 5-9 variant texts; "
                  "non-trivial = distinct texts given to the model (every one contains at least an engine header; exports average ~30 lines)")
     c["distribution"] = {"engines": n, "modes": stats["modes"], "decimals": stats["decimals"], "classes": dict(sorted(stats["classes"].items())),
                          "representable_engines": stats["representable"], "processed_without_exception": stats["processed_ok"], "outcomes": stats["outcomes"],
                          "variants": stats["variants"], "variant_accepted": stats["variant_accepted"], "variant_rejected": stats["variant_rejected"],
-                         "model_cases": len(cases), "violations_by_signature": stats["violations"]}
+                         "model_cases": len(cases), "violations_by_signature": stats["violations"],
+                         "rows_where_the_original_raises_but_the_reimport_computes (float vs numpy.float64 parameters)": stats.get("original_raises_reimport_computes", 0),
+                         "rejection_variants_accepted_by_the_importer": stats.get("variant_unexpectedly_accepted", 0),
+                         "correspondence_only_probes (height attribute set on Constant/Linear/Function)": stats.get("correspondence_only_probes", 0),
+                         "probe_outcomes": stats.get("probe_outcomes", {})}
     c["correspondence_mismatches"] = len(mism)
     c["oracle_violations"] = nviol
     c["samples"] = samples[:4]
@@ -923,29 +950,61 @@ def run(ctx, build, verdict, ev):
     ev["assumptions"] += [
         "A-fmt: Python's '%.{d}f' formatting and float()/numpy.float64() parsing are correctly rounded and round-trip (the model's fmt/parse/round are abstract; the correspondence supplies the printed tokens)",
         "Op.is_close(x, 1.0) is taken from the implementation for every number (closeness bit / table of the tokens of the text)",
+        "engines whose Constant / Linear / Function terms carry a non-unit `height` attribute (not offered by their constructors) are outside the property: "
+        "the direct oracle skips them; they are still compared with the model (Constant: printed height -> the importer raises ValueError; Linear: the height is read back as "
+        "one more coefficient; Function: the height is dropped) — proved about the model as C14_constant_height_rejected and by `normalize`",
         "not modelled: Rule.load against the engine and Function.load of a formula (both leave the text unchanged; the model accepts a superset of texts)",
     ]
+
+
+def regenerate(fl, tb, seed: int, n: int, i: int):
+    """Engine number i of the run with this seed and size (the text alone does not determine the engine: a rule's
+    enabled flag, a Function's variables … are exactly what the text loses)."""
+    import hashlib
+    import random
+
+    rng = random.Random((seed * 1000003) ^ int(hashlib.sha256(b"C14").hexdigest()[:8], 16))
+    seeds = [rng.getrandbits(63) for _ in range(n)]
+    return engine_for(fl, seeds[i], i, tb)
 
 
 def replay(ctx, data):
     import fuzzylite as fl
 
+    tb = tables()
     for v in data.get("violations", []):
-        print(v["signature"], "-", v["what"])
+        print(v["signature"], "-", v["what"][:300])
         r = v["replay"]
         d = r.get("decimals", 3)
+        meta = r.get("meta", {})
         with fl.settings.context(decimals=d):
-            text = r.get("variant") or r.get("fll")
-            if not text:
+            if r.get("variant"):
+                try:
+                    e2 = fl.FllImporter().from_string(r["variant"])
+                    t1 = fl.FllExporter().to_string(e2)
+                    t2 = fl.FllExporter().to_string(fl.FllImporter().from_string(t1))
+                    print("  now: variant accepted; one cycle gives a fixed point:", t1 == t2)
+                except Exception as ex:
+                    print("  now: variant:", type(ex).__name__, ex)
                 continue
+            if "i" not in meta:
+                continue
+            e, d2, mode, flags, rng = regenerate(fl, tb, meta.get("seed", ctx.seed), meta["n"], meta["i"])
+            t1 = fl.FllExporter().to_string(e)
+            print(f"  engine {meta['i']} of {meta['n']} (seed {meta.get('seed', ctx.seed)}), decimals={d}, mode={mode}, flags={sorted(flags)}; same text as recorded: {t1 == r.get('fll')}")
             try:
-                e2 = fl.FllImporter().from_string(text)
-                t2 = fl.FllExporter().to_string(e2)
-                print("  now: import ok; re-export equals the text:", t2 == text)
-                if r.get("python"):
-                    print("  (the original engine is given as Python code in the replay file under 'python')")
+                e2 = fl.FllImporter().from_string(t1)
             except Exception as ex:
-                print("  now:", type(ex).__name__, ex)
+                print("  now: import of the exported text raises", type(ex).__name__, ex)
+                continue
+            t2 = fl.FllExporter().to_string(e2)
+            print("  now: second export equals the first:", t1 == t2)
+            for a, b in [(a, b) for a, b in zip(t1.split("\n"), t2.split("\n")) if a != b][:3]:
+                print("     ", repr(a), "->", repr(b))
+            paths = diff_paths(dump(e, d, tb), dump(e2, d, tb))
+            print("  now: structure differs at:", paths[:5] if paths else "nowhere")
+            if r.get("rows"):
+                print("  now: outputs equal on the recorded rows:", same_outcome(outcome(e, r["rows"]), outcome(e2, r["rows"])))
     for b in data.get("broken", []):
-        print(b["kind"], b["name"], b["detail"][:500])
+        print(b["kind"], b["name"], b["detail"][:800])
     return 0
